@@ -222,18 +222,26 @@ def event_cfg(tid: int, start: datetime, ev: dict) -> dict:
 
 
 def twin_step(dyn, x, ta: float, tb: float, on_iv, thrust_fn):
-    """Integrate [ta, tb] with scipy, restarting at the switch times; thrust on iff inside on_iv."""
+    """Integrate [ta, tb] with scipy, restarting at the switch times; thrust on iff inside on_iv.
+
+    The unthrusted derivative is the dynamics object's own (finite_thrust = None); the DRIVER adds its own thrust
+    acceleration to the velocity derivative, so the way the simulator adds thrust is not trusted either."""
     from scipy.integrate import solve_ivp
+    dyn.finite_thrust = None
+    free = partial(dyn._differentialEquation, check_collision=True)
+
+    def thrusted(t, y):
+        d = np.array(free(t, y), dtype=float)
+        d[3:] += thrust_fn(y)[:3]
+        return d
     pts = [ta] + [s for s in on_iv if ta < s < tb] + [tb]
     for a, b in zip(pts[:-1], pts[1:]):
         mid = 0.5 * (a + b)
-        dyn.finite_thrust = thrust_fn if on_iv[0] <= mid < on_iv[1] else None
-        sol = solve_ivp(partial(dyn._differentialEquation, check_collision=True), (a, b), x, method=dyn._method,
+        sol = solve_ivp(thrusted if on_iv[0] <= mid < on_iv[1] else free, (a, b), x, method=dyn._method,
                         rtol=dyn.RELATIVE_TOL, atol=dyn.ABSOLUTE_TOL * np.ones(6))
         if not sol.success:
             raise tlc.MachineryError("twin integration failed: " + str(sol.message))
         x = sol.y[:, -1]
-    dyn.finite_thrust = None
     return x
 
 
